@@ -181,6 +181,15 @@ class MatlabDefCompiler:
 
         return "\n".join(f)
 
+    def generate_definition(self, obj: Union[TypeAlias, SDF, MDF]) -> str:
+        """A definition of the struct or message section (see Parser.emission_groups)"""
+        if isinstance(obj, TypeAlias):
+            return self.generate_type_alias(obj) + "\n"
+        elif isinstance(obj, MDF):
+            return self.generate_struct(obj, top_field="MDF") + "\n\n"
+        else:
+            return self.generate_struct(obj) + "\n\n"
+
     def generate_msg_def(self, mdf: MDF) -> str:
         return self.generate_struct(mdf, "MDF")
 
@@ -268,8 +277,9 @@ class MatlabDefCompiler:
             f.write("\n")
 
             # RTMA.typedefs
+            early_aliases, struct_section, msg_section = self.parser.emission_groups()
             f.write("% Type Aliases\n")
-            for obj in self.parser.aliases.values():
+            for obj in early_aliases:
                 f.write(self.generate_type_alias(obj))
             f.write("\n")
 
@@ -293,15 +303,13 @@ class MatlabDefCompiler:
 
             # RTMA.typedefs
             f.write("% Struct Definitions\n")
-            for obj in self.parser.struct_defs.values():
-                f.write(self.generate_struct(obj))
-                f.write("\n\n")
+            for obj in struct_section:
+                f.write(self.generate_definition(obj))
 
             # RTMA.MDF
             f.write("% Message Definitions\n")
-            for obj in self.parser.message_defs.values():
-                f.write(self.generate_struct(obj, top_field="MDF"))
-                f.write("\n\n")
+            for obj in msg_section:
+                f.write(self.generate_definition(obj))
 
             # include STRING_DATA core defs for backwards compatibility with quicklogger and message manager output
             f.write("% Manual Definitions - obsolete core defs\n")
